@@ -96,3 +96,24 @@ Lemma include_callback_overrides_exclude_witness :
       (fst (run_full h0 u0 o0 no_skip no_rxh [s2p "root['a']"] [] [] no_cb no_cb (Some v2_cb) None positional0 v2_t1 v2_t2)) =
     [(KValue, [PKey (ks "a")])].
 Proof. vm_compute. reflexivity. Qed.
+
+(* ---- V3: default alignment mode, exclude_types=[int] on [1,'a'] -> ['a','b']: the unrestricted run keeps the
+        pairwise pass (type_changes root[0], values_changed root[1]); with the int entries gone the difflib pass has one
+        entry left and is kept: iterable_item_added root[1] - an object-dependent exclusion is NOT a pure filter in the
+        default mode (positional mode: values_changed root[1], as C13_value_exclusion_is_path_exclusion says) ---- *)
+Definition v3_t1 := VList [vi 1; VAtom (ks "a")].
+Definition v3_t2 := VList [VAtom (ks "a"); VAtom (ks "b")].
+(* difflib.SequenceMatcher([1,'a'],['a','b']).get_opcodes() *)
+Definition v3_ops (_ : path) (_ _ : list value) : list opcode :=
+  [mkOp ODelete 0 1 0 0; mkOp OEqual 1 2 0 1; mkOp OInsert 2 2 1 2].
+Lemma value_exclusion_default_refuted :
+  map (fun e => (ekind e, ep1 e))
+      (fst (run_full h0 u0 v3_ops no_skip no_rxh [] [] [TInt] no_cb no_cb None None default0 v3_t1 v3_t2)) =
+    [(KIterAdd, [PIdx 1])] /\
+  map (fun e => (ekind e, ep1 e))
+      (fst (run_full h0 u0 v3_ops no_skip no_rxh [] [] [] no_cb no_cb None None default0 v3_t1 v3_t2)) =
+    [(KType, [PIdx 0]); (KValue, [PIdx 1])] /\
+  map (fun e => (ekind e, ep1 e))
+      (fst (run_full h0 u0 v3_ops no_skip no_rxh [] [] [TInt] no_cb no_cb None None positional0 v3_t1 v3_t2)) =
+    [(KValue, [PIdx 1])].
+Proof. vm_compute. repeat split; reflexivity. Qed.
